@@ -171,3 +171,20 @@ def check_zero(R, expr, rule, inst, what, detail, loc=None, engine='E-ALG', extr
         return False
     R.undecided(rule, inst, '%s: %s' % (what[:200], v[1]))
     return None
+
+
+def numeric_fingerprint(expr, digits=6):
+    """A deterministic numeric signature of an expression or matrix: its free symbols, sorted by name, take fixed irrational-looking values; the value is printed with `digits` significant digits."""
+    import sympy as sp
+    items = list(expr) if isinstance(expr, sp.MatrixBase) else [expr]
+    syms = sorted({y for e in items if isinstance(e, sp.Basic) for y in e.free_symbols}, key=lambda y: y.name)
+    import zlib
+    sub = {y: sp.Float(0.31 + (zlib.crc32(y.name.encode()) % 100003) / 100003.0 * 1.1, 30) for y in syms}          # by NAME: exchanging two symbols changes the signature
+    out = []
+    for e in items:
+        try:
+            v = sp.N(e.subs(sub), 20) if isinstance(e, sp.Basic) else e
+            out.append('%.*g' % (digits, float(v)) if getattr(v, 'is_real', False) or isinstance(v, (int, float)) else str(v)[:40])
+        except Exception:
+            out.append('?')
+    return ','.join(out)
